@@ -135,7 +135,8 @@ CLAIMED['C01'] = dict(
        'loops of the Type 3/4 readers and writers partition the data; the Type 3 attribute block layout and checksum agree between reader and '
        'writer. Equality of the read-back octets for concrete memory images is not decided.',
   design_ref='DESIGN.md section 3 C01',
-  note='One defect repaired (empty message on Type 1/2 raised UnboundLocalError). The emulated Type 3 Tag is covered by C07 only.',
+  note='One defect repaired (empty message on Type 1/2 raised UnboundLocalError). Of the emulated Type 3 Tag only the block count limit is '
+       'decided here (robustness is C07).',
   technique='CFG dominance + definite-assignment analysis + writer/reader constant agreement (ast)')
 CLAIMED['C02'] = dict(
   category='other',
@@ -169,9 +170,10 @@ CLAIMED['C12'] = dict(
        'send_apdu and transceive; every cycle of the retry loops passes the retry counter test and the WTX loop must be bounded; response '
        'bytes are indexed only behind a length test. At-most-once execution by the card and staleness need a card model and are not decided.',
   design_ref='DESIGN.md section 3 C12',
-  note='Known findings (7 keys, 2 root causes): the S(WTX) loop exchanges outside the error mapping, unbounded and without length test; the '
-       'retransmit-after-R(ACK) path passes no retry counter. Assume/guarantee: clf.exchange in reader mode raises Timeout/Transmission/'
-       'ProtocolError or IOError (C13).',
+  note='Known findings (2 keys): the S(WTX) loop and the retransmit-after-R(ACK) path are unbounded (no counter test). The error mapping and '
+       'length tests of the S(WTX) loop were repaired (90ee9d8). Also decided: one hand-over of an APDU to the block layer (R6) and that the block '
+       'whose number was checked is the block consumed. Assume/guarantee: clf.exchange in reader mode raises Timeout/Transmission/ProtocolError '
+       'or IOError (C13).',
   technique='CFG dominance + handler-map agreement + exception-escape analysis + loop-cycle counter test (ast)')
 CLAIMED['C18'] = dict(
   category='other',
@@ -195,7 +197,8 @@ CLAIMED['C06'] = dict(
        'the passing branch of the length test) and GET announces the limit it enforces; header formats, payload offsets and completeness tests '
        'agree between client and server. Octet-for-octet arrival over the full stack for every MIU/RW pair is not decided.',
   design_ref='DESIGN.md section 3 C06',
-  note='In-order exactly-once delivery of each fragment is delegated to the data link connection (C05). Trusted: SNEP 1.0 codes tabulated in the rule.',
+  note='The window / sequence / acknowledgement / MIU / receive-buffer obligations of the data link connection (C05 rules) are part of this '
+       'check. Trusted: SNEP 1.0 codes tabulated in the rule.',
   technique='fragment partition + handshake ordering by CFG dominance + header format agreement (ast)')
 CLAIMED['C07'] = dict(
   category='other',
@@ -208,7 +211,7 @@ CLAIMED['C07'] = dict(
        'controlled nesting; every peer-driven decoder loop strictly consumes the remaining size; fixed-size reads in the LLCP decoders lie inside '
        'the checked window or are converted to DecodeError. Thread liveness after the input and blocking inside driver calls are not decided.',
   design_ref='DESIGN.md section 3 C07',
-  note='Seven defects repaired (see known_findings.json, status fixed). Two known findings: SystemExit leaves connect() through the LLCP run '
+  note='Eight defects repaired (see known_findings.json, status fixed). Two known findings: SystemExit leaves connect() through the LLCP run '
        'loops; unbounded AGF nesting recursion. Implicit exceptions outside the catalogue (TypeError from None/str mixing, MemoryError) are not '
        'modelled; user callbacks are opaque.',
   technique='interprocedural exception-escape analysis with assume/guarantee layers + buffer min-length dataflow + loop progress + call-graph cycle check (ast/CFG)')
@@ -235,9 +238,10 @@ CLAIMED['C16'] = dict(
        'the retry loops for boundedness and break-after-success, and nfc.tag.activate for the CommunicationError boundary. Duplicate application '
        'of a retried state-changing command on the tag is not decided; implicit exceptions on short responses are the subject of C08.',
   design_ref='DESIGN.md section 3 C16',
-  note='Known findings (6 keys, 3 root causes): ValueError from read_segment beyond 2 KiB, ValueError from send_apdu when the CC announces '
-       'MLe/MLc > 255, raw CommunicationError through the ISO-DEP S(WTX) exchange. 9 infeasible reports are suppressed one by one with '
-       'anchor-checked reasons. One defect repaired (AssertionError from sector_select).',
+  note='No open finding. Defects repaired: AssertionError from sector_select, truncated Type 3 responses, Request System Code / Search '
+       'Service Code payload lengths, the S(WTX) loop errors, MLe/MLc beyond short APDUs, segment numbers beyond 15. Implicit IndexError / '
+       'struct.error sites on tag controlled buffers are part of the analysis (R5). Infeasible reports are suppressed one by one with '
+       'anchor-checked reasons (see evidence).',
   technique='class-rooted interprocedural exception-escape analysis with literal-argument guard pruning (ast)')
 CLAIMED['C08'] = dict(
   category='other',
@@ -246,12 +250,13 @@ CLAIMED['C08'] = dict(
        'particular any TagCommandError -- is a failed obligation, reported at the unguarded call inside the NDEF reader. Each _read_ndef_data '
        'must compare or clamp the tag supplied length against the data area. Every loop of the read path driven by tag data must advance, '
        'consume a bounded range or leave when a command returns nothing (cycle analysis on the CFG). The number of commands for a given image '
-       'and containment of all octets in the area beyond these necessary conditions are not decided; implicit IndexError sites are partly '
-       'covered (see DESIGN).',
+       'and containment of all octets in the area beyond these necessary conditions are not decided. Tag controlled byte strings are indexed / '
+       'unpacked only behind a proven length (buffer dataflow, R4).',
   design_ref='DESIGN.md section 3 C08',
-  note='Known findings: declared length never compared with the data area (4 tag types), ValueError from read_segment / send_apdu argument '
-       'checks, raw CommunicationError through the ISO-DEP S(WTX) exchange. Four defects repaired (tt1 TLV read, Lite-S MC read, tt4 empty READ '
-       'BINARY loop, tt3 Nbr = 0).',
+  note='No open finding. Defects repaired: tt1 TLV read, Lite-S MC read, tt4 empty READ BINARY loop, tt3 Nbr = 0, short control TLVs on '
+       'Type 1, truncated Type 3 responses, ATS without TA/TB, oversize CC answer, S(WTX) loop errors, length beyond the data area (4 tag types), '
+       'MLe/MLc beyond short APDUs, segment numbers beyond 15. Discovery response lengths (SENS_RES, SEL_RES, NFCID1, RID_RES, SENSB_RES, SENSF_RES) '
+       'are trusted framing facts.',
   technique='class-rooted exception-escape analysis + loop-cycle progress analysis on the CFG (ast)')
 NA_REASON = {}
 def main():
